@@ -180,7 +180,7 @@ func c11Stmts(tier string) []c11Stmt {
 		c11Stmt{Items: []string{"a", "m.loc AS loc"}, Names: []string{"a", "loc"}, Join: "LEFT JOIN meta m ON dev = m.dev AND site = m.site", Limit: 2})
 	// window queries
 	havs := []wh{{"", ""}, {"c > 1", "c > 1"}, {"s >= 2 AND c < 5", "s >= 2 && c < 5"}}
-	orders := [][][2]string{nil, {{"s", "DESC"}}, {{"k", "ASC"}, {"s", "DESC"}}, {{"c", ""}}}
+	orders := [][][2]string{nil, {{"s", "DESC"}}, {{"k", "ASC"}, {"s", "DESC"}}, {{"c", ""}}, {{"s", "DESC"}, {"k", ""}}, {{"c", ""}, {"s", "DESC"}, {"k", ""}}}
 	for _, win := range []string{"tumbling", "sliding", "counting", "session", "global"} {
 		for _, w := range wheres[:4] {
 			for _, h := range havs {
@@ -483,7 +483,7 @@ func c11Shape(s c11Stmt) string {
 func (c11) Describe(tier string) fw.Description {
 	return fw.Description{
 		Level: "model_checking",
-		Rule: "(a) totality: every token string of length 1..n over a 25-token alphabet (keywords, identifiers, literals, punctuation, a window call, a lone quote, a lone backtick) and every byte string of length 0..m over 16 hostile bytes appended to 6 valid prefixes is parsed (rsql.Parse) under panic capture and a 5 s hang watchdog; (b) fidelity: every statement generated from the documented grammar (DISTINCT, 5+1 select lists with aliases/backticked keyword identifiers/keyword-bearing literals, FROM alias, INNER/LEFT JOIN, 8 WHERE clauses incl. string literals containing LIMIT / ORDER BY / WHERE / FROM / GROUP BY, 5 window kinds, 3 HAVING, 3 WITH option sets, 4 ORDER BY lists, LIMIT) is parsed and the returned configuration compared field by field with what was written; (c) layout: each statement in 3 keyword cases x 4 separators must give a deep-equal configuration, and equal EmitSync results for a subset; non-trivial = the input was accepted",
+		Rule: "(a) totality: every token string of length 1..n over a 25-token alphabet (keywords, identifiers, literals, punctuation, a window call, a lone quote, a lone backtick) and every byte string of length 0..m over 16 hostile bytes appended to 6 valid prefixes is parsed (rsql.Parse) under panic capture and a 5 s hang watchdog; (b) fidelity: every statement generated from the documented grammar (DISTINCT, 5+1 select lists with aliases/backticked keyword identifiers/keyword-bearing literals, FROM alias, INNER/LEFT JOIN, 8 WHERE clauses incl. string literals containing LIMIT / ORDER BY / WHERE / FROM / GROUP BY, 5 window kinds, 3 HAVING, 3 WITH option sets, 6 ORDER BY lists (explicit and implicit directions mixed), LIMIT) is parsed and the returned configuration compared field by field with what was written; (c) layout: each statement in 3 keyword cases x 4 separators must give a deep-equal configuration, and equal EmitSync results for a subset; non-trivial = the input was accepted",
 		Bounds:      map[string]any{"token_len": map[string]int{"quick": 5, "thorough": 6}, "byte_len": map[string]int{"quick": 4, "thorough": 5}},
 		Assumptions: []string{"the grammar is the one accepted by rsql.Parser (clause order HAVING, WITH, ORDER BY, LIMIT; '*' only as the first select item)", "hang = a single Parse taking more than 5 s of wall clock"},
 	}
